@@ -214,7 +214,7 @@ theorem foldl_move_sorted (bks : List Nat) (pairs : List (ObjId × ObjId)) (st :
 /-- **the move pass at the level of `get`**: for pairs with distinct old ids that all exist, the object
 map afterwards holds, at `k`, the object of the (last) pair whose new id is `k`; an old id that was
 not re-used is empty; every other key is untouched.  `replace` is exactly the list of pairs. -/
-theorem movePass_get (bks : List Nat) (os : Objects) (bm : BmTable) (pairs : List (ObjId × ObjId))
+theorem movePass_get (bks : List Nat) (os : Objects) (bm : BkTable) (pairs : List (ObjId × ObjId))
     (h1 : (pairs.map (·.1)).Nodup) (h2 : ∀ p ∈ pairs, os.get p.1 ≠ none) :
     (∀ k, (movePass bks os bm pairs).objects.get k =
       match srcOf pairs k with
@@ -262,13 +262,13 @@ def assign : List ObjId → Nat → List (ObjId × ObjId)
   | [], _ => []
   | id :: rest, s => (id, (s, id.2)) :: assign rest (s + 1)
 
-theorem densePairs_eq (ids : List ObjId) (s : Nat) (acc : List (ObjId × ObjId)) (h : s + ids.length ≤ U32_MAX) :
+theorem densePairs_eq (ids : List ObjId) (s : Nat) (acc : List (ObjId × ObjId)) (h : s + ids.length ≤ U32_MAXE) :
     densePairs ids s acc = some (acc ++ denseSpec ids s, s + ids.length) := by
   induction ids generalizing s acc with
   | nil => simp [densePairs, denseSpec]
   | cons id rest ih =>
     simp only [List.length_cons] at h
-    have h1 : ¬ (s + 1 > U32_MAX) := by omega
+    have h1 : ¬ (s + 1 > U32_MAXE) := by omega
     simp only [densePairs, h1, if_false]
     rw [ih (s + 1) _ (by omega)]
     simp only [denseSpec, List.length_cons]
@@ -421,7 +421,7 @@ theorem eq_of_nodup_map_fst {l : List (ObjId × ObjId)} (hn : (l.map (·.1)).Nod
     · exact ih hn.2 hp' hq'
 
 /-- after the move pass of the dense renumbering, exactly the new ids of the assignment hold objects -/
-theorem dense_move_isSome (bks : List Nat) (os : Objects) (bm : BmTable) (ids : List ObjId) (s : Nat)
+theorem dense_move_isSome (bks : List Nat) (os : Objects) (bm : BkTable) (ids : List ObjId) (s : Nat)
     (hn : ids.Nodup) (hk : ∀ k, k ∈ ids ↔ (os.get k).isSome) (k : ObjId) :
     ((movePass bks os bm (denseSpec ids s)).objects.get k).isSome ↔ ∃ p ∈ assign ids s, p.2 = k := by
   have h1 : ((denseSpec ids s).map (·.1)).Nodup := (denseSpec_olds_sublist ids s).nodup hn
